@@ -57,6 +57,8 @@ pub fn reference_runs(elevs: &[u8]) -> Vec<(u8, usize)> {
 #[derive(Clone, Copy, Debug, PartialEq)]
 pub enum Ident {
     Unique,
+    /// unique radials whose azimuth numbers do not follow input order
+    UniqueScrambled,
     /// all radials of one elevation number are equal in every field
     PerElevation,
     /// a radial equals its predecessor (when that has the same elevation) with probability 1/2
@@ -71,6 +73,7 @@ fn identities(elevs: &[u8], ident: Ident) -> Vec<(i64, u16)> {
         let unique = (1_000 + i as i64, (i % 720) as u16);
         let v = match ident {
             Ident::Unique => unique,
+            Ident::UniqueScrambled => (1_000 + i as i64, ((i * 7919 + 13) % 1000) as u16),
             Ident::PerElevation => (e as i64, e as u16),
             Ident::RepeatPrevious(salt) => {
                 if i > 0 && elevs[i - 1] == e && mix(salt, i as u64) & 1 == 0 {
@@ -97,7 +100,7 @@ fn check_grouping_ident(ctx: &mut Ctx, elevs: &[u8], ident: Ident, shape: u64) {
     ctx.obs.case(shape);
     let ids = identities(elevs, ident);
     let radials: Vec<Radial> = elevs.iter().zip(ids.iter()).map(|(&e, &(id, az))| mk_radial(id, az, e)).collect();
-    if ident != Ident::Unique {
+    if ident != Ident::Unique && ident != Ident::UniqueScrambled {
         ctx.obs.count("groupings_with_equal_radials", 1);
     }
     let replay = json!({"op": "from_radials", "elevations": elevs, "identities": format!("{:?}", ident)});
@@ -310,7 +313,7 @@ pub fn run(ctx: &mut Ctx) {
     ctx.rule = "grouping: one case per elevation sequence and identity pattern (every radial unique, or equal radials adjacent / recurring / all equal per elevation); merge: one case per ordered pair of azimuth lists; \
 distinct = distinct elevation strings / azimuth-list pairs; oracle = 10-line reference run-splitter and std stable sort of first++second"
         .into();
-    ctx.exhaustive = Some("every elevation string of length 0..=8 over {1,2,3} (9,841) under three identity patterns; every pair of azimuth lists of length <= 3 over {1,2,3} (1,600 pairs) for equal and unequal elevations".into());
+    ctx.exhaustive = Some("every elevation string of length 0..=8 over {1,2,3} (9,841) under four identity patterns; every pair of azimuth lists of length <= 3 over {1,2,3} (1,600 pairs) for equal and unequal elevations".into());
     ctx.floor_evaluations = 10_000;
     let mut rng = Rng::derive(ctx.seed, 9, 0);
 
@@ -342,6 +345,7 @@ distinct = distinct elevation strings / azimuth-list pairs; oracle = 10-line ref
             }
             check_grouping(ctx, &elevs, mix(1, mix(len as u64, code as u64)));
             check_grouping_ident(ctx, &elevs, Ident::PerElevation, mix(11, mix(len as u64, code as u64)));
+            check_grouping_ident(ctx, &elevs, Ident::UniqueScrambled, mix(13, mix(len as u64, code as u64)));
             check_grouping_ident(ctx, &elevs, Ident::RepeatPrevious(code as u64), mix(12, mix(len as u64, code as u64)));
             if ctx.obs.want_sample() && len == 4 && code % 20 == 7 {
                 ctx.obs.sample(json!({"op": "from_radials", "elevations": elevs, "expected_runs": reference_runs(&elevs)}));
@@ -379,6 +383,9 @@ distinct = distinct elevation strings / azimuth-list pairs; oracle = 10-line ref
     // random grouping
     let n = ctx.tier.pick(20_000, 400_000);
     for i in 0..n {
+        if i % 16 == 1 {
+            crate::props::poison::run(i as u64);
+        }
         if ctx.out_of_time() {
             break;
         }
@@ -424,6 +431,7 @@ distinct = distinct elevation strings / azimuth-list pairs; oracle = 10-line ref
         let ident = match i % 4 {
             0 => Ident::RepeatPrevious(i),
             1 => Ident::SmallPool(i),
+            2 => Ident::UniqueScrambled,
             _ => Ident::Unique,
         };
         check_grouping_ident(ctx, &elevs, ident, mix(shape, i));
@@ -432,6 +440,9 @@ distinct = distinct elevation strings / azimuth-list pairs; oracle = 10-line ref
     // random merge
     let n = ctx.tier.pick(20_000, 400_000);
     for i in 0..n {
+        if i % 16 == 1 {
+            crate::props::poison::run(i as u64);
+        }
         if ctx.out_of_time() {
             break;
         }
